@@ -481,13 +481,21 @@ class GSDGenerator(Generator):
         df = build_gsd(levels, self.reduction, self.n)
         # print(df)
 
-        vectors = []
-        for vector in df:
-            vals = []
-            for i in range(len(vector)):
-                vals.append(self.values[i][vector[i]])
-            vectors.append(vals)
-        return vectors
+        # build_gsd returns one design for n == 1 and a list of n complementary designs otherwise
+        designs = [df] if self.n == 1 else df
+        results = []
+        for design in designs:
+            vectors = []
+            for vector in design:
+                vals = []
+                for i in range(len(vector)):
+                    vals.append(self.values[i][vector[i]])
+                vectors.append(vals)
+            results.append(vectors)
+
+        if self.n == 1:
+            return results[0]
+        return results
 
 
 class Mutator(Operator):
